@@ -330,13 +330,12 @@ func (f *File) ReadAt(b []byte, off int64) (int, error) {
 func (f *File) readAt(b []byte, off int64, kind string, full bool) (int, error) {
 	d := f.d
 	o, fault := d.op(kind, f.name)
+	if full && len(b) == 0 && fault == "" {
+		return 0, nil // os.File.ReadAt with an empty buffer does not touch the descriptor
+	}
 	if f.closed {
 		o.Err = "closed"
 		return 0, perr("read", f.name, fs.ErrClosed)
-	}
-	if f.flag&O_WRONLY != 0 {
-		o.Err = "EBADF"
-		return 0, perr("read", f.name, syscall.EBADF)
 	}
 	if fault == "read-error" {
 		o.Err = "EIO"
@@ -344,6 +343,10 @@ func (f *File) readAt(b []byte, off int64, kind string, full bool) (int, error) 
 	}
 	if len(b) == 0 {
 		return 0, nil
+	}
+	if f.flag&O_WRONLY != 0 {
+		o.Err = "EBADF"
+		return 0, perr("read", f.name, syscall.EBADF)
 	}
 	if off >= int64(len(f.n.data)) {
 		o.Err = "EOF"
